@@ -573,7 +573,7 @@ Definition on_timer (c : cfg) (e : ep) : ep * list dgram :=
       match e_nst e with
       | [] => (e, [])
       | _ =>
-          let i := if c_backoff c then cap60 (2 * e_nsti e) else e_nsti e in
+          let i := bump c (e_nsti e) in     (* the handshake's interval rule *)
           (set_nst e (e_nstinit e) (e_nst e) i (e_nstt e + i), pack c (e_nst e))
       end
   end.
@@ -588,8 +588,9 @@ Definition ep_blank (c : cfg) (client : bool) : ep :=
 
 (* ---------- dual-stack client: version negotiation before the state machine starts ----------
    conn.go negotiateVersionClient: the ClientHello (Flight 1 of the DTLS 1.3 machinery) is written
-   and repeated on the configured schedule by a loop of its own, whose timeout restarts with every
-   datagram it reads; records are buffered as usual but no event reaches a state machine.  Once the
+   and repeated on the configured schedule by a loop of its own, whose deadline belongs to the
+   transmission (a datagram that is read does not move it); records are buffered as usual but no
+   event reaches a state machine.  Once the
    server's first message (ServerHello / HelloRetryRequest, message_seq 0) is complete the DTLS 1.3
    state machine starts in Flight 1, WAITING, with the ClientHello as its flight, its own initial
    interval, lastSent unset, and is primed with an empty event (primeHandshakeRecv).
@@ -608,9 +609,8 @@ Definition neg_timer (c : cfg) (e : ep) : ep * list dgram :=
    pack c (e_out e)).
 
 Definition neg_datagram (c : cfg) (e : ep) (d : dgram) (now : N) : ep * list dgram :=
-  let '(e1, _, _, _) := process_records true e d in
-  let e2 := set_fsm e1 (e_flight e1) (e_fst e1) (e_retr e1) (e_reply e1) (e_lastsent e1) (e_interval e1)
-                    (now + e_interval e1) (e_out e1) (e_pending e1) (e_est e1) in
+  let '(e2, _, _, _) := process_records true e d in
+  (* the repeat deadline belongs to the transmission: reading a datagram does not re-arm it *)
   if has e2 0 HT_SH 0 || has e2 0 HT_HRR 0 then
     on_event c (set_fsm e2 F1 Waiting true false (e_lastsent e2) (c_initial c) (now + c_initial c) (e_out e2) [] (e_est e2))
              false false [] [] now
